@@ -94,6 +94,16 @@ structure MockFn where
   ret : List Nat → Nat → Nat
   effs : List Nat → Nat → List Nat
 
+/-- method_mock.py:68-69 — `sim.set(self.adapter.data_in, ret)`: the function may return `None`
+    (its result type is `Optional[...]`), and `Layout.const(None)` is the all-zero value -/
+def noneAsZero : Option Nat → Nat
+  | some v => v
+  | none => 0
+
+/-- a mocked Python function `g` (value or `None`, registered effects) as the `MockFn` the adapter sees -/
+def MockFn.ofPy (ret : List Nat → Nat → Option Nat) (effs : List Nat → Nat → List Nat) : MockFn :=
+  { ret := fun log a => noneAsZero (ret log a), effs := effs }
+
 structure Mock where
   log : List Nat        -- payloads of all effects applied so far, in order
   effects : List Nat    -- `_effects`
@@ -141,6 +151,9 @@ structure MCycle where
   men : Bool                  -- `enable()`
   post : List (Bool × Nat)    -- wire changes after it, up to the clock edge
   after : List (Bool × Nat)   -- wire changes after the edge, before `effect_process` runs
+  x : Nat := 0                -- Python-side state (not a signal) the mocked function reads, as it stands when the
+                              -- mock re-enables; HYPOTHESIS of the model: other testbenches update it only between
+                              -- the clock edge and the end of the mock's `delay` (that is what `delay` is for)
 deriving Repr, DecidableEq
 
 structure MOut where
@@ -160,11 +173,12 @@ def MState.cycle (f : MockFn) (s : MState) (c : MCycle) : MState × MOut :=
   let applied := if done then s5.mock.effects else []
   ({ s5 with mock := s5.mock.applyEffects done }, { done := done, ret := ret, applied := applied })
 
-def MState.run (f : MockFn) (s : MState) : List MCycle → MState × List MOut
+/-- a history of cycles; `F x` is the mocked function when the Python-side state is `x` -/
+def MState.run (F : Nat → MockFn) (s : MState) : List MCycle → MState × List MOut
   | [] => (s, [])
   | c :: cs =>
-    let (s', o) := s.cycle f c
-    let (s'', os) := MState.run f s' cs
+    let (s', o) := s.cycle (F c.x) c
+    let (s'', os) := MState.run F s' cs
     (s'', o :: os)
 
 /-! ### caller + design + mock -/
@@ -181,6 +195,7 @@ structure CycIn where
   e : Nat               -- the mock re-enables after phase number `e` (0-based)
   men : Bool
   val : Nat
+  x : Nat := 0          -- Python-side state read by the mocked function, in force when the mock re-enables
 deriving Repr, DecidableEq
 
 structure Sys where
@@ -237,9 +252,9 @@ def Sys.step (f : MockFn) (s : Sys) (i : CycIn) : Sys × SysOut :=
    { en := aen1, done := o.done, ret := if o.done then some out else none, applied := o.applied,
      evt := co.evt, out := out })
 
-def Sys.run (f : MockFn) (s : Sys) : List CycIn → List SysOut
+def Sys.run (F : Nat → MockFn) (s : Sys) : List CycIn → List SysOut
   | [] => []
-  | i :: is => (s.step f i).2 :: Sys.run f (s.step f i).1 is
+  | i :: is => (s.step (F i.x) i).2 :: Sys.run F (s.step (F i.x) i).1 is
 
 /-! ### `CallTrigger` with several calls (testbenchio.py:15-133)
 
